@@ -46,7 +46,15 @@ func main() {
 	describe := flag.Bool("describe", false, "print the registered properties (id, what is decided, assumptions) as JSON and exit")
 	flag.BoolVar(&noInline, "no-inline", false, "do not inline functions outside the baseline list before the rules run (debugging aid)")
 	flag.StringVar(&dumpInlinedDir, "dump-inlined", "", "write the helper-inlined sources of package absnfs to this directory (debugging aid)")
+	genBase := flag.String("gen-baseline", "", "write the baseline table (functions with signatures, struct fields) of -repo to this Go file and exit")
 	flag.Parse()
+	if *genBase != "" {
+		if err := genBaseline(*repo, *genBase); err != nil {
+			fmt.Println("gen-baseline:", err)
+			os.Exit(2)
+		}
+		return
+	}
 	if *describe {
 		out := map[string]interface{}{}
 		for id, pr := range registry {
